@@ -15,6 +15,7 @@ import (
 	_ "net/http/pprof"
 	"os"
 	"path/filepath"
+	"strings"
 	"sync"
 	"time"
 
@@ -379,6 +380,9 @@ func (sm *ServerManager) Dispose() {
 // ---------------------------------------------------------------------------------------------------------------------
 
 func (sm *ServerManager) AddCustomizePubSession(streamName string) (ICustomizePubSessionContext, error) {
+	if err := checkInStreamName(streamName); err != nil {
+		return nil, err
+	}
 	sm.mutex.Lock()
 	defer sm.mutex.Unlock()
 	group := sm.getOrCreateGroup("", streamName)
@@ -422,6 +426,9 @@ func (sm *ServerManager) OnNewRtmpPubSession(session *rtmp.ServerSession) error 
 
 	// 先做simple auth鉴权
 	if err := sm.option.Authentication.OnPubStart(info); err != nil {
+		return err
+	}
+	if err := checkInStreamName(session.StreamName()); err != nil {
 		return err
 	}
 
@@ -585,6 +592,9 @@ func (sm *ServerManager) OnNewRtspPubSession(session *rtsp.PubSession) error {
 	info := base.Session2PubStartInfo(session)
 
 	if err := sm.option.Authentication.OnPubStart(info); err != nil {
+		return err
+	}
+	if err := checkInStreamName(session.StreamName()); err != nil {
 		return err
 	}
 
@@ -821,4 +831,18 @@ func (sm *ServerManager) serveHls(writer http.ResponseWriter, req *http.Request)
 	}
 
 	sm.hlsServerHandler.ServeHTTP(writer, req)
+}
+
+// checkInStreamName 输入流的名称由对端指定，之后会被用来拼接hls、录制文件的路径，
+// 不允许包含能跳出配置目录的成分（"."、".."路径项，或者反斜杠）
+func checkInStreamName(streamName string) error {
+	if strings.Contains(streamName, "\\") {
+		return base.ErrStreamNameInvalid
+	}
+	for _, item := range strings.Split(streamName, "/") {
+		if item == "." || item == ".." {
+			return base.ErrStreamNameInvalid
+		}
+	}
+	return nil
 }
